@@ -125,6 +125,10 @@ func gen(t *rapid.T) pairsim.Scenario {
 				op.Mode = "none"
 			case 1:
 				op.SlowMs = rapid.SampledFrom([]int{30, 500, 3000}).Draw(t, "slow") // the handler holds the request while other traffic churns the pool
+				// (half of them with a context without a deadline: the exchange then outlasts the
+				// block-wise timeout, which is all the library has to go by for its own bookkeeping)
+				op.NoDeadline = (op.Kind == "get" || op.Kind == "post" || op.Kind == "put" || op.Kind == "delete") && rapid.Bool().Draw(t, "nodeadline") &&
+					(sc.Transport == "tcp" || len(sc.Link.FaultsAB)+len(sc.Link.FaultsBA) == 0) // (a lost response is waited for for ever)
 			case 2:
 				op.CancelMs = rapid.SampledFrom([]int{1, 3, 50}).Draw(t, "cancel")
 			case 3:
@@ -140,6 +144,7 @@ func gen(t *rapid.T) pairsim.Scenario {
 		sc.Srv.GoPool = true
 		for i := range sc.Ops {
 			sc.Ops[i].SlowMs = 0
+			sc.Ops[i].NoDeadline = false
 		}
 	}
 	// a stream server may be given a ProcessReceivedMessageFunc as well (on the unchanged tree its
@@ -148,6 +153,7 @@ func gen(t *rapid.T) pairsim.Scenario {
 		sc.Srv.GoPool = true
 		for i := range sc.Ops {
 			sc.Ops[i].SlowMs = 0
+			sc.Ops[i].NoDeadline = false
 		}
 	}
 	return sc
